@@ -17,7 +17,8 @@ The translator never guesses: every construct outside the supported subset abort
                under construction), augmented assignment, if/elif/else, return, raise <Builtin>(...),
                `while` loops without break/continue/return/else (only when the target declares "loop_fuel": each
                becomes a function recursive on a fuel counter; out of fuel = error `decimalDomain`, i.e. outside
-               the modelled domain),
+               the modelled domain), `for i in range([lo,] hi)` rewritten to such a while loop (i not assigned in
+               the body and not used after the loop),
                expression statements that call a raising helper, pass, local imports, docstrings,
                the constructor idiom `self = super().__new__(cls)` ... `return self`
   expressions  int literals, True/False, names, + - * // % ** (literal exponent) >> << & | ^ ~ unary -,
@@ -31,6 +32,14 @@ The translator never guesses: every construct outside the supported subset abort
   specialisation   `isinstance(x, T)`, `x is None`, `x is not None` are decided from the declared parameter
                types of the target (ints are ints, `absent` parameters are None); statically decided
                branches are dropped; code after a statically taken returning branch is dead.
+               Virtual calls (`self._is_leap_year(...)`) are either bound to a named target (`binds`) or become a
+               function parameter of the generated definition (`fun_params`, pure or `R`-valued); instance
+               attributes of classes without a structure become ordinary parameters (`extra_params`/`self_attrs`).
+  names        Python identifiers are kept verbatim («quoted» when Lean reserves them); names invented by the
+               translator contain `'`; a generated definition whose name a Python local would shadow is referred
+               to by its fully qualified name.
+Self-test: tools/py2lean_selftest.py translates a corpus that uses every construct above, evaluates the generated
+Lean on input grids and compares with CPython (and checks that a list of unsupported constructs is refused).
 
 Semantics fixed by the translator (its trusted base):
   * Python int = Lean Int.  `//` and `%` are emitted as `Int.fdiv` / `Int.fmod` (floor, sign of the divisor —
@@ -2021,7 +2030,7 @@ class Emitter:
             head = " ".join(x for x in [f"def {lp['name']}", fps, eps, frees] if x)
             cty = [self.g.lean_type(ty) for _, ty in lp["carried"]]
             rty = cty[0] if len(cty) == 1 else "(" + " × ".join(cty) + ")"
-            out.append(f"/-- loop {lp['index']} of `{t.file}: {(t.cls + '.') if t.cls else ''}{t.function}` (line {lp['line']}): `while` as recursion on the fuel;")
+            out.append(f"/-- loop {lp['index']} of `{t.file}: {(t.cls + '.') if t.cls else ''}{t.function}`: `while` as recursion on the fuel;")
             out.append("    out of fuel = outside the modelled domain (`decimalDomain`, reply `!dom`) -/")
             out.append(f"{head} : Nat → {' → '.join(cty)} → R {rty}")
             out.append(f"  | 0, {', '.join('_' for _ in cty)} => .error .decimalDomain")
